@@ -3,14 +3,14 @@ import Driver.Util
 /-! Line-protocol driver for the `Executor` model (C04).
 
     exec <dd:0|1> <dflt:idx|-> <tasks|-> <req|->
-      tasks = `;`-separated, task number i is the i-th entry: `cls:key:pre:post`
+      tasks = `;`-separated, task number i is the i-th entry: `cls:key:sig:pre:post`, sig = `+`-separated `name=default` | `name!`
       pre/post = `,`-separated calls `idx/pos/kw` (may only refer to EARLIER tasks)
       pos = `+`-separated values, kw = `+`-separated `name=value`
       value = `i<int>` | `s<char codes>`; name = char codes (decimal, `.`-separated)
       req = `,`-separated `idx/kw`
     answer: `<log> | <results> | <hyp>` with log = `,`-separated `id/pos/kw` (kw sorted by name),
       results = `,`-separated `key=index`, hyp = 1 iff the decidable hypotheses of
-      `effective_args_dedupe_partial` hold for the expansion -/
+      `effective_args_dedupe` hold for the expansion -/
 open Inv.Exec Drv
 
 def splitNE (s : String) (sep : String) : List String := if s.isEmpty then [] else s.splitOn sep
@@ -33,10 +33,20 @@ def decCall (built : Array TaskT) (s : String) : Option CallT :=
 def decCalls (built : Array TaskT) (s : String) : Option (List CallT) :=
   (splitNE s ",").mapM (decCall built)
 
+def decParam (s : String) : Param :=
+  match s.splitOn "=" with
+  | [k, v] => ⟨decChars k, some (decVal v)⟩
+  | _ => ⟨decChars ((s.dropEnd 1).toString), none⟩
+
+def decSigs (s : String) : List (List Param) :=
+  (splitNE s ";").map (fun e => match e.splitOn ":" with
+    | [_, _, sg, _, _] => (splitNE sg "+").map decParam
+    | _ => [])
+
 def decTasks (s : String) : Option (Array TaskT) :=
   (splitNE s ";").foldlM (fun (built : Array TaskT) e =>
     match e.splitOn ":" with
-    | [c, k, pre, post] => do
+    | [c, k, _, pre, post] => do
       let cls ← c.toNat?
       let key ← k.toNat?
       let p ← decCalls built pre
@@ -69,9 +79,8 @@ def encOcc (o : Occ) : String :=
   toString o.id ++ "/" ++ "+".intercalate (o.args.pos.map encVal) ++ "/" ++
     "+".intercalate ((sortKW o.args.kw).map (fun kv => encChars kv.1 ++ "=" ++ encVal kv.2))
 
-def hypOk (l : List Occ) : Bool :=
-  l.all (fun c => l.all (fun d =>
-    ((c.cls == d.cls) == (c.id == d.id)) && (c.id != d.id || sameSpelling c d)))
+def hypOk (sig : Nat → List Param) (l : List Occ) : Bool :=
+  l.all (fun c => wellCalled (sig c.id) c.args && l.all (fun d => (c.cls == d.cls) == (c.id == d.id)))
 
 def opt (s : String) : String := if s == "-" then "" else s
 
@@ -85,10 +94,12 @@ def step (line : String) : String :=
       | none => "bad-req"
       | some rq =>
         let d : Option TaskT := if dflt == "-" then none else (dflt.toNat?.bind (fun n => built[n]?))
-        let r := execute (dd == "1") d rq
+        let sigs := decSigs (opt tasks)
+        let sig : Nat → List Param := fun i => sigs.getD i []
+        let r := execute sig (dd == "1") d rq
         ",".intercalate (r.1.map encOcc) ++ " | " ++
           ",".intercalate (r.2.map (fun kv => toString kv.1 ++ "=" ++ toString kv.2)) ++ " | " ++
-          (if hypOk (expand (normalize d rq)) then "1" else "0")
+          (if hypOk sig (expand (normalize d rq)) then "1" else "0")
   | _ => "bad-op"
 
 def main : IO Unit := mainLoop step
